@@ -121,6 +121,35 @@ class P(ServeProp):
                                                "serial": (serial[picks[i]] or b"")[:300].decode("latin-1"), "concurrent": (got or b"")[:300].decode("latin-1")}))
                     if len(samples) < 3:
                         samples.append({"threads": N, "in_flight": k, "requests": [reqs[p][:40].decode("latin-1") for p in picks[:5]]})
+                # other clients that are merely connected: with N-1 silent connections open, a request on one more connection is answered
+                # with its serial answer (a request never waits for another client's bytes while a worker is free)
+                if N >= 2:
+                    idle = []
+                    try:
+                        for _ in range(N - 1):
+                            idle.append(s.conn(5.0)); time.sleep(0.01)
+                        pick = rnd.randrange(len(reqs))
+                        got = None
+                        for deadline in (3.0, 8.0, 8.0):          # timing is never evidence on its own: retried with a longer deadline
+                            try:
+                                got = canon_resp(s.request(reqs[pick], timeout=deadline))
+                            except Exception:
+                                got = None
+                            if got == serial[pick]:
+                                break
+                        compared += 1
+                        if got != serial[pick]:
+                            fails.append(("with %d silent connections open on -t=%d a request on another connection did not receive its serial answer" % (N - 1, N),
+                                          "response-waits-for-other-connections", None,
+                                          {"request": reqs[pick][:200].decode("latin-1"), "threads": N, "silent_connections": N - 1,
+                                           "serial": (serial[pick] or b"")[:300].decode("latin-1"), "received": (got or b"")[:300].decode("latin-1")}))
+                            break
+                    except OSError:
+                        pass
+                    finally:
+                        for c in idle:
+                            try: c.close()
+                            except OSError: pass
                 # other clients that abort: a connection opened before a burst of connections that send a request and reset at once (some
                 # are reset while still in the accept queue) must still receive its own serial answer
                 for storm in range(1 if tier == "quick" else 3):
